@@ -242,7 +242,10 @@ func WorkerMain(args []string) int {
 		w.budget = 5 * time.Second
 	}
 	if raceEnabled {
-		w.budget *= 10
+		// process-wide clock (see libclock.go): 16 goroutines inside the library burn 16 CPU-seconds per second when they
+		// hang, so 300 CPU-seconds are reached in 20 s of wall time; the margin is for what the collector's idle workers
+		// add on an oversubscribed machine during the sequential phases of a round (typical round: 4 CPU-seconds)
+		w.budget *= 60
 	}
 	w.caseStart.Store(-1)
 	jf, err := os.OpenFile(fmt.Sprintf("%s/journal.%d", *dir, *shard), os.O_CREATE|os.O_RDWR|os.O_TRUNC, 0o644)
